@@ -404,6 +404,33 @@ PROPS = {
                       "WriteError (as operation sequences), EncodeSlicePointer (byte level, shared with C01), bufferPool (as a set of "
                       "free buffers).",
     },
+    "C09": {
+        "generated": ["gowrites2v"],
+        "rule": "real client -> real server over 5 transports {in-memory, tcp, unix, http-connect, websocket} x 5 codecs {raw bytes, JSON, "
+                "protobuf, MessagePack, Thrift} x compression {none, gzip}: sequential calls with argument sizes {0, 1, 700..1030 "
+                "(both sides of the 1024-byte threshold for every codec's overhead), 5000, 64 Ki, 1 Mi (in-memory; all transports in the "
+                "thorough tier)}, 0-3 binary-safe metadata pairs (NUL, non-UTF-8, '=&%', empty and 2000-byte values), 10 % one-way, 50 % "
+                "with a Reply value that already holds something; then 6 x 4 (thorough 12 x 10) concurrent calls per client. On the "
+                "in-memory transport both directions are tapped and the frames compared with the model's. every case is distinct",
+        "theorems": ["C09_end_to_end", "C09_compression_is_invisible", "C09_concurrent_callers"],
+        "assumptions": ["the serialization codecs round-trip and only the zero value encodes to nothing (premises on encoding/json, "
+                        "gogo/protobuf, vmihailenco/msgpack, apache/thrift; exercised, not proved)",
+                        "compress/gzip inverts (premise; the harness checks that every compressed payload on the wire unzips to the codec's bytes)",
+                        "kcp and quic transports need build tags / packages that are not available offline: not exercised",
+                        "Reply / argument types are the caller's: a type whose own Unmarshal keeps old fields (omitempty JSON, optional thrift "
+                        "fields) is outside the property"],
+        "trusted": ["harness/cmd/vh/c09.go: the recording service, the tap on the in-memory transport, hand-written protobuf and thrift "
+                    "message types with a variable-size field", "tools/gowrites2v (for the concurrent-callers theorem, shared with C08)"],
+        "level_text": "Theorems for all values, metadata, codecs (as round-tripping functions), compress settings, sizes below 4 GiB and "
+                      "buffer / decoder-object histories: the handler is given the caller's arguments and metadata, the caller the "
+                      "handler's reply and response metadata; the views do not depend on the compress setting; under any schedule of "
+                      "concurrent callers on one connection every handler is given its own caller's arguments. Built on the wire-codec "
+                      "round trip (C01/C02) and the shared-connection theorem (C08). Compared with real calls over five transports; request "
+                      "and response frames compared byte for byte on the tapped in-memory transport.",
+        "level_note": "Trusted: Coq kernel, extraction, the harness, the codec and gzip libraries (premises). Modelled, not verified: "
+                      "client.send (request construction, compress threshold), handleRequest / sendResponse / Message.Clone (response "
+                      "construction), client input (reply decoding, empty payload), share metadata keys.",
+    },
     "C12": {
         "rule": "exhaustive weight vectors (quick: n<=3,w<=4 and n=4,w<=2; thorough: n<=4,w<=6) from a random window "
                 "offset, round-robin sets n=0..8 from every cursor offset, and random update/selection histories over a "
